@@ -3,7 +3,7 @@ from __future__ import annotations
 
 import json
 
-from . import fam_deep, fam_expr, fam_proof, fam_iter, fam_multi, fam_names, fam_pairs, fam_pool, fam_proc, fam_repo, fam_sql
+from . import fam_deep, fam_expr, fam_proof, fam_iter, fam_multi, fam_names, fam_pairs, fam_pool, fam_proc, fam_rand, fam_repo, fam_sql
 from .core import Part, open_findings
 
 REGISTRY = {
@@ -21,20 +21,20 @@ REGISTRY = {
         "leaf contents: 14 (quick) / all 85 (thorough) row lists of <=3 rows over a,b in 0..1, zero-column and key/non-key variants",
         "non-key columns are accompanied by the key columns that determine them (documented ColumnTag.is_key contract)",
         "calculated tags are globally fresh (column tags are absolute identifiers)"]},
-    "C02": {"families": [fam_sql.run, fam_deep.run], "assumptions": [
+    "C02": {"families": [fam_sql.run, fam_deep.run, fam_rand.run], "assumptions": [
         "SQLite 3.40 in memory is the database; both settings of PRAGMA reverse_unordered_selects stand for 'both legal physical row orders'",
         "bag equality is demanded exactly when TLC's DetTree says every slice sits under a total order (or has a trivial window) on this data",
         "SQLite cannot parse the parenthesised nested compound selects SQLAlchemy renders for a chain whose operand is a bare chain: such states are compiled but not executed (counted in evidence)"]},
-    "C07": {"families": [fam_proc.run, fam_multi.run], "assumptions": [
+    "C07": {"families": [fam_proc.run, fam_multi.run, fam_rand.run], "assumptions": [
         "the Processor used is the harness's real one (SQLite temp tables <-> RowSequence); its hooks evaluate the source for real, so 'evaluable by the source engine on its own' is observed, not assumed"]},
     "C09": {"families": [fam_pool.run, fam_multi.run], "assumptions": [
         "histories beyond depth 2-3 are sampled by TLC's simulation mode (seeded by VERIF_SEED), not enumerated"]},
     "C10": {"families": [fam_proc.run], "assumptions": [
         "the leaf below the materializations is a counting lazy payload (iteration-sourced trees); at most one iteration of it over a whole history is the observable form of 'evaluated at most once'"]},
-    "C08": {"families": [fam_sql.run, fam_iter.run], "assumptions": ["each occurrence of a leaf table in one query gets its own alias (as a user must do for self-joins)"]},
-    "C11": {"families": [fam_sql.run, fam_deep.run], "assumptions": ["list equality is demanded exactly when TLC's OrdTree says the outermost level carries a sort that totally orders its rows"]},
+    "C08": {"families": [fam_sql.run, fam_iter.run, fam_rand.run], "assumptions": ["each occurrence of a leaf table in one query gets its own alias (as a user must do for self-joins)"]},
+    "C11": {"families": [fam_sql.run, fam_deep.run, fam_rand.run], "assumptions": ["list equality is demanded exactly when TLC's OrdTree says the outermost level carries a sort that totally orders its rows"]},
     "C17": {"families": [fam_sql.run, fam_repo.run], "assumptions": []},
-    "C03": {"families": [fam_multi.run, fam_deep.run], "assumptions": [
+    "C03": {"families": [fam_multi.run, fam_deep.run, fam_rand.run], "assumptions": [
         "content is compared after processing with a real SQLite<->iteration Processor; list equality when TLC's ListDet holds, bag equality when BagDet holds",
         "with transfer=True and a fully successful backtrack the documented behaviour (no transfer added) is accepted"]},
     "C15": {"families": [fam_multi.run], "assumptions": []},
